@@ -154,6 +154,23 @@ func c04JoinAccept(c *engine.Case, class string, j jaValue, jt byte, joinEUI [8]
 	if rec := spec.ECBEncrypt(key, wire[1:]); !bytes.Equal(rec, append(append([]byte(nil), payload...), want[:]...)) {
 		c.Fail("harness/ecb", "ECB model not an inverse", nil)
 	}
+	// the encryption is a function of payload|MIC only: any carried MIC value (all-zero is a
+	// legal CMAC truncation) is encrypted, decrypted and carried through unchanged
+	for _, mic := range [][4]byte{{0, 0, 0, 0}, {0xFF, 0xFF, 0xFF, 0xFF}, {0, 0, 0, 1}} {
+		e := lorawan.PHYPayload{MHDR: lorawan.MHDR{MType: lorawan.JoinAccept}, MACPayload: j.lib(), MIC: lorawan.MIC(mic)}
+		if err := e.EncryptJoinAcceptPayload(keyOf(key)); err != nil {
+			c.Fail(class+"/encrypt-error/carried-mic", fmt.Sprintf("EncryptJoinAcceptPayload with carried MIC %x: %v; %s", mic[:], err, desc()), nil)
+			continue
+		}
+		w, err := e.MarshalBinary()
+		if wantW := append([]byte{mhdr}, spec.ECBDecrypt(key, append(append([]byte(nil), payload...), mic[:]...))...); err != nil || !bytes.Equal(w, wantW) {
+			c.Fail(class+"/ciphertext/carried-mic", fmt.Sprintf("carried MIC %x: encrypted frame %x (err %v), specification %x; %s", mic[:], w, err, wantW, desc()), nil)
+			continue
+		}
+		if err := e.DecryptJoinAcceptPayload(keyOf(key)); err != nil || [4]byte(e.MIC) != mic {
+			c.Fail(class+"/decrypt-mic/carried-mic", fmt.Sprintf("carried MIC %x comes back as %x (err %v)", mic[:], e.MIC[:], err), nil)
+		}
+	}
 	// receiver path: unmarshal, decrypt, validate
 	var q lorawan.PHYPayload
 	if err := q.UnmarshalBinary(wire); err != nil {
